@@ -440,6 +440,7 @@ class Tally:
         self.nt = {}
         self.fail = {}
         self.samples = {}
+        self.cpu = 0.0
 
     def case(self, clause, ok, nontrivial, detail_fn, sample=None):
         self.ev[clause] = self.ev.get(clause, 0) + 1
@@ -493,6 +494,7 @@ def explore(task):
     """task: dict(cfg, inits=[(text,pos)], depth, expand_len, click_depth). -> Tally"""
     cfg = task["cfg"]
     tally = Tally()
+    cpu0 = time.process_time()
     numeric = cfg["kind"] != "edit"
     with _Utf8():
         visited = set()
@@ -536,6 +538,7 @@ def explore(task):
                         continue
                     visited.add(sig)
                     queue.append((text0, pos0, (*path, ev), ref2, False))
+    tally.cpu = time.process_time() - cpu0
     return tally
 
 
@@ -569,6 +572,7 @@ def random_task(args):
     cfgs, seed, chunk, count, length, maxlen = args
     r = rng(seed * 1000 + chunk)
     tally = Tally()
+    cpu0 = time.process_time()
     with _Utf8():
         for k in range(count):
             cfg = cfgs[r.randrange(len(cfgs))]
@@ -592,6 +596,7 @@ def random_task(args):
                 return {"clause": "random-histories", "why": f"step {info.get('step')}: [{info.get('clause')}] {info.get('why')}", "cfg": cfg, "text0": text0, "pos0": pos0, "events": events, "obs": info.get("obs"), "class": _why_class(info.get("clause", ""), str(info.get("why")), info.get("event"))}
 
             tally.case("random-histories", ok, True, detail, sample={"cfg": cfg, "text0": text0, "pos0": pos0, "events": events})
+    tally.cpu = time.process_time() - cpu0
     return tally
 
 
@@ -719,11 +724,12 @@ def tasks_for(tier):
         inits = [(t, p) for t in texts for p in range(len(t) + 1)]
         for i in range(0, len(inits), per_task):
             depth = (3 if is_core(cfg) else 2) if quick else 4
-            tasks.append({"cfg": cfg, "inits": inits[i : i + per_task], "depth": depth, "expand_len": 8, "click_depth": 0 if quick else 1, "pref_keys": ["up", "down", "a", "left"] if quick else PREF_KEYS})
+            tasks.append({"cfg": cfg, "inits": inits[i : i + per_task], "depth": depth, "expand_len": 8, "click_depth": 0 if quick else 1, "pref_keys": ["up", "down", "a"] if quick else PREF_KEYS})
     return tasks
 
 
 def _merge(total, t):
+    total.cpu += t.cpu
     for c, n in t.ev.items():
         total.ev[c] = total.ev.get(c, 0) + n
     for c, n in t.nt.items():
@@ -770,6 +776,7 @@ def _result(name, rule, bound, exhaustive, total, clause, t0):
         "failure_classes": {cls: n for cls, (n, _i) in sorted(classes.items(), key=lambda kv: -kv[1][0])[:40]},
         "samples": total.samples.get(clause, []),
         "wall_s": round(time.time() - t0, 2),
+        "cpu_s_all_workers": round(total.cpu, 1),
     }
 
 
